@@ -5,14 +5,20 @@ package sysfs
 
 import (
 	"io/fs"
+	"net"
 
 	experimentalsys "github.com/tetratelabs/wazero/experimental/sys"
+	"github.com/tetratelabs/wazero/internal/fsapi"
+	socketapi "github.com/tetratelabs/wazero/internal/sock"
 	"github.com/tetratelabs/wazero/sys"
 )
 
 var (
 	_ fs.FileMode
 	_ sys.Stat_t
+	_ *net.TCPListener
+	_ socketapi.TCPSock
+	_ fsapi.File
 )
 
 // fsMutations counts requests that can modify the file system, as seen by the wrapped
@@ -197,4 +203,16 @@ func isReadFile(f experimentalsys.File) bool { _, ok := f.(*readFile); return ok
 //@ func DirFS(dir string) experimentalsys.FS
 //@   trusted
 //@   ensures r0 != nil
+//@   modifies nothing
+
+//@ prop C18
+//@ func NewTCPListenerFile(tl *net.TCPListener) socketapi.TCPSock
+//@   trusted
+//@   maybe-nil tl
+//@   ensures r0 != nil
+//@   modifies nothing
+
+//@ func NewStdioFile(stdin bool, f fs.File) (fsapi.File, error)
+//@   trusted
+//@   ensures r1 == nil ==> r0 != nil
 //@   modifies nothing
